@@ -311,6 +311,20 @@ func storeBase(ins ssa.Instruction) (ssa.Value, bool) {
 	}
 }
 
+// decoderTarget: ins is a decoder call that fills an accepted local target
+func decoderTarget(ins ssa.Instruction) *ssa.Alloc {
+	call, ok := ins.(*ssa.Call)
+	if !ok {
+		return nil
+	}
+	key := calleeKey(call.Common())
+	ai, ok := decoderFuncs[key]
+	if !ok || ai >= len(call.Common().Args) {
+		return nil
+	}
+	return zeroLocalTarget(ins, call.Common().Args[ai])
+}
+
 func (P *Prog) instrMods(ins ssa.Instruction, inScope func(*ssa.BasicBlock) bool) []string {
 	fresh := func(v ssa.Value) bool {
 		r := allocRoot(v)
@@ -856,7 +870,132 @@ func zeroLocalTarget(call ssa.Instruction, arg ssa.Value) *ssa.Alloc {
 	if writes(a, 0) {
 		return nil
 	}
+	// a call in a loop fills a variable declared outside the loop again and again: it is zero only the first
+	// time. That is harmless only for flat targets (decoding then overwrites fields and allocates new byte slices).
+	if inCycle(call.Block()) && !flatDecodeTarget(a.Type().Underlying().(*types.Pointer).Elem(), 0) {
+		ab := a.Block()
+		if ab == nil || !inSameCycle(call.Block(), ab) {
+			return nil
+		}
+	}
 	return a
+}
+
+func inCycle(b *ssa.BasicBlock) bool {
+	seen := map[*ssa.BasicBlock]bool{}
+	var stack []*ssa.BasicBlock
+	stack = append(stack, b.Succs...)
+	for len(stack) > 0 {
+		x := stack[len(stack)-1]
+		stack = stack[:len(stack)-1]
+		if x == b {
+			return true
+		}
+		if seen[x] {
+			continue
+		}
+		seen[x] = true
+		stack = append(stack, x.Succs...)
+	}
+	return false
+}
+
+// inSameCycle: every cycle through b also passes through a (conservatively: a is reachable from b and b from a
+// without leaving b's dominated region is not computed; a must be the same block or lie on a cycle with b)
+func inSameCycle(b, a *ssa.BasicBlock) bool {
+	if a == b {
+		return true
+	}
+	reach := func(from, to *ssa.BasicBlock) bool {
+		seen := map[*ssa.BasicBlock]bool{}
+		stack := append([]*ssa.BasicBlock(nil), from.Succs...)
+		for len(stack) > 0 {
+			x := stack[len(stack)-1]
+			stack = stack[:len(stack)-1]
+			if x == to {
+				return true
+			}
+			if seen[x] {
+				continue
+			}
+			seen[x] = true
+			stack = append(stack, x.Succs...)
+		}
+		return false
+	}
+	// the variable is re-created in every iteration only if its block is inside every loop that contains the call:
+	// approximated by requiring that it dominates the call and is itself on a cycle with it
+	return a.Dominates(b) && reach(b, a) && !loopHeaderBetween(a, b)
+}
+
+// loopHeaderBetween: some loop contains b but not a (then a is allocated once for several executions of b)
+func loopHeaderBetween(a, b *ssa.BasicBlock) bool {
+	for _, h := range b.Parent().Blocks {
+		// h is a header of a loop containing b if h dominates b and b reaches h
+		if !h.Dominates(b) {
+			continue
+		}
+		isHeader := false
+		for _, p := range h.Preds {
+			if h.Dominates(p) {
+				isHeader = true
+			}
+		}
+		if !isHeader {
+			continue
+		}
+		inLoop := func(x *ssa.BasicBlock) bool {
+			if !h.Dominates(x) {
+				return false
+			}
+			seen := map[*ssa.BasicBlock]bool{}
+			stack := append([]*ssa.BasicBlock(nil), x.Succs...)
+			if x == h {
+				return true
+			}
+			for len(stack) > 0 {
+				y := stack[len(stack)-1]
+				stack = stack[:len(stack)-1]
+				if y == h {
+					return true
+				}
+				if seen[y] || !h.Dominates(y) {
+					continue
+				}
+				seen[y] = true
+				stack = append(stack, y.Succs...)
+			}
+			return false
+		}
+		if inLoop(b) && !inLoop(a) {
+			return true
+		}
+	}
+	return false
+}
+
+// flatDecodeTarget: no pointers, maps or slices other than []byte anywhere in the value
+func flatDecodeTarget(t types.Type, depth int) bool {
+	if depth > 6 {
+		return false
+	}
+	switch u := types.Unalias(t).Underlying().(type) {
+	case *types.Basic:
+		return true
+	case *types.Struct:
+		for i := 0; i < u.NumFields(); i++ {
+			if !flatDecodeTarget(u.Field(i).Type(), depth+1) {
+				return false
+			}
+		}
+		return true
+	case *types.Array:
+		return flatDecodeTarget(u.Elem(), depth+1)
+	case *types.Slice:
+		b, ok := types.Unalias(u.Elem()).Underlying().(*types.Basic)
+		return ok && b.Kind() == types.Uint8
+	}
+	return false
 }
 
 // privateAllocs returns the local variables of fn whose address is only used to read and write them
